@@ -204,6 +204,9 @@ let handle seq kind thr a b c d e f =
           apply seq what (LLaunch (nat_of_int ws, nt, nat_of_int q))
         | Some InSyscall, _ when tu = 3 -> apply seq what (LIoDone (nt, nat_of_int q))
         | _ -> reject "%s: no branch of the kernel enqueues a task from there" what);
+       (match place t with
+        | Some (InQueue (q', _)) when int_of_nat q' = q -> ()
+        | _ -> reject "%s: the model puts it %s" what (place_s t));
        check_flags what t flags target;
        (match task t with
         | Some x' -> if code_of_state x'.t_state <> stc then reject "%s: thread_state %d at the enqueue, model %s" what stc (string_of_state x'.t_state)
